@@ -18,13 +18,86 @@ import (
 
 var modelRe = regexp.MustCompile(`\(define-fun ([^\s()]+) \(\) (\(_ BitVec \d+\)|Int|Bool|\(_ FloatingPoint 11 53\))\s+((?:#b[01]+)|(?:#x[0-9a-fA-F]+)|(?:\(- \d+\))|(?:\d+)|true|false|\(fp [^)]*\)|\(_ [^)]*\))\)`)
 
-// parseModel extracts scalar constants from a solver model.
+// parseModel extracts the zero-ary definitions of a solver model: name -> value s-expression.
 func parseModel(out string) map[string]string {
 	m := map[string]string{}
-	for _, mm := range modelRe.FindAllStringSubmatch(out, -1) {
-		m[mm[1]] = mm[3]
+	i := 0
+	for {
+		j := strings.Index(out[i:], "(define-fun ")
+		if j < 0 {
+			break
+		}
+		start := i + j
+		end := matchParen(out, start)
+		if end < 0 {
+			break
+		}
+		body := strings.Join(strings.Fields(out[start+len("(define-fun "):end]), " ")
+		// body: NAME () SORT VALUE
+		sp := strings.Index(body, " ")
+		if sp > 0 && strings.HasPrefix(body[sp+1:], "() ") {
+			name := body[:sp]
+			rest := body[sp+4:]
+			// skip the sort (one s-expr)
+			var val string
+			if strings.HasPrefix(rest, "(") {
+				e := matchParen(rest, 0)
+				val = strings.TrimSpace(rest[e+1:])
+			} else {
+				k := strings.Index(rest, " ")
+				val = strings.TrimSpace(rest[k+1:])
+			}
+			m[name] = val
+		}
+		i = end + 1
 	}
 	return m
+}
+
+func matchParen(s string, i int) int {
+	depth := 0
+	for j := i; j < len(s); j++ {
+		switch s[j] {
+		case '(':
+			depth++
+		case ')':
+			depth--
+			if depth == 0 {
+				return j
+			}
+		}
+	}
+	return -1
+}
+
+// splitSexpr splits "(f a (b c) d)" into ["f","a","(b c)","d"].
+func splitSexpr(s string) []string {
+	s = strings.TrimSpace(s)
+	if !strings.HasPrefix(s, "(") {
+		return []string{s}
+	}
+	s = s[1 : len(s)-1]
+	var out []string
+	i := 0
+	for i < len(s) {
+		if s[i] == ' ' {
+			i++
+			continue
+		}
+		if s[i] == '(' {
+			e := matchParen(s, i)
+			out = append(out, s[i:e+1])
+			i = e + 1
+			continue
+		}
+		j := i
+		for j < len(s) && s[j] != ' ' {
+			j++
+		}
+		out = append(out, s[i:j])
+		i = j
+	}
+	return out
 }
 
 func modelInt(v string, signed bool, width int) (*big.Int, bool) {
@@ -51,8 +124,35 @@ func modelInt(v string, signed bool, width int) (*big.Int, bool) {
 }
 
 func scalarLiteral(t types.Type, v string, q types.Qualifier) (string, bool) {
+	if st, ok := t.Underlying().(*types.Struct); ok {
+		parts := splitSexpr(v)
+		if len(parts) != st.NumFields()+1 || !strings.HasPrefix(parts[0], "mk_") {
+			return "", false
+		}
+		var fs []string
+		for i := 0; i < st.NumFields(); i++ {
+			l, ok := scalarLiteral(st.Field(i).Type(), parts[i+1], q)
+			if !ok {
+				return "", false
+			}
+			fs = append(fs, st.Field(i).Name()+": "+l)
+		}
+		return types.TypeString(t, q) + "{" + strings.Join(fs, ", ") + "}", true
+	}
+	if _, ok := t.Underlying().(*types.Pointer); ok {
+		if v == "0" {
+			return "nil", true
+		}
+		return "", false
+	}
 	b, ok := t.Underlying().(*types.Basic)
 	if !ok {
+		return "", false
+	}
+	if b.Kind() == types.UnsafePointer {
+		if v == "0" {
+			return "nil", true
+		}
 		return "", false
 	}
 	ts := types.TypeString(t, q)
@@ -116,6 +216,9 @@ func strat(s string, i int) int { return int(s[i]) }
 func bits(f float64) uint64 { return math.Float64bits(f) }
 func isnan(f float64) bool { return f != f }
 func feq(a, b float64) bool { return a == b }
+func fsame(a, b float64) bool { return math.Float64bits(a) == math.Float64bits(b) || (a != a && b != b) }
+func fst2[A, B any](a A, b B) A { return a }
+func snd2[A, B any](a A, b B) B { return b }
 `
 
 // tryReplay attempts to confirm a sat obligation on the real code. Returns the
@@ -191,7 +294,9 @@ func (r *Report) tryReplay(no *NamedObl) (string, bool) {
 					val = "0"
 				}
 			default:
-				return false
+				lits = append(lits, types.TypeString(t, q)+"{}")
+				desc = append(desc, name+" = zero value")
+				return true
 			}
 		}
 		lit, ok := scalarLiteral(t, val, q)
@@ -233,7 +338,7 @@ func (r *Report) tryReplay(no *NamedObl) (string, bool) {
 		fmt.Fprintf(&body, "\tif !%s(%s) { t.Fatalf(\"GOVC-REPLAY-CONFIRMED lemma clause %s is false for %s\") }\n", cl.GoName, strings.Join(lits, ", "), cl.Label, escapeQuotes(strings.Join(desc, ", ")))
 	case "func":
 		fn := r.eng.byKey[con.Pkg][con.Key]
-		if fn == nil || fn.Parent() != nil || fn.Signature.Recv() != nil && !isScalar(fn.Signature.Recv().Type()) {
+		if fn == nil || fn.Parent() != nil {
 			return "", false
 		}
 		sig := fn.Signature
@@ -318,7 +423,7 @@ func (r *Report) tryReplay(no *NamedObl) (string, bool) {
 	ovSrc = strings.Replace(ovSrc, helperSrc, replayHelpers, 1)
 	if !strings.Contains(ovSrc, "import math ") {
 		pl := "package " + pkg.Name() + "\n"
-		ovSrc = strings.Replace(ovSrc, pl, pl+"\nimport math \"math\"\n\nvar _ = math.NaN\n", 1)
+		ovSrc = strings.Replace(ovSrc, pl, pl+"\nimport math \"math\"\n", 1) + "\nvar _ = math.NaN\n"
 	}
 	testSrc := fmt.Sprintf("//go:build verif\n\npackage %s\n\nimport (\n\t\"math\"\n\t\"testing\"\n)\n\nvar _ = math.NaN\n\nfunc TestGovcReplay(t *testing.T) {\n%s}\n", pkg.Name(), body.String())
 	tmp, err := os.MkdirTemp("", "govc-replay")
